@@ -22,6 +22,10 @@ import (
 // map (where each key-value pair counts as two items).
 const MaxArrayDecodeLength = 100_000
 
+// MaxNestingDepth limits how deeply arrays, maps, and tags may be nested in
+// data being decoded.
+const MaxNestingDepth = 64
+
 // Major types (high 3 bits)
 const (
 	unsignedIntMajorType byte = 0x00
@@ -222,8 +226,23 @@ func Unmarshal(data []byte, v any) error {
 type Decoder struct {
 	r io.Reader
 
+	// Number of arrays, maps, and tags currently being decoded
+	depth int
+
 	DecoderOptions
 }
+
+// Track nesting so that the work done for an item, including wrapping its
+// errors, stays proportional to the input size.
+func (d *Decoder) enter() error {
+	if d.depth >= MaxNestingDepth {
+		return fmt.Errorf("nesting exceeds max depth: %d", MaxNestingDepth)
+	}
+	d.depth++
+	return nil
+}
+
+func (d *Decoder) leave() { d.depth-- }
 
 // DecoderOptions configure advanced behavior of the Decoder.
 type DecoderOptions struct{}
@@ -309,6 +328,10 @@ func (d *Decoder) decodeRawVal(highThreeBits, lowFiveBits byte, additional []byt
 		if err != nil {
 			return nil, err
 		}
+		if err := d.enter(); err != nil {
+			return nil, err
+		}
+		defer d.leave()
 
 		decoded := head
 		for i := range length {
@@ -322,6 +345,10 @@ func (d *Decoder) decodeRawVal(highThreeBits, lowFiveBits byte, additional []byt
 
 	// Tag types are decoded like a simple value followed by another value
 	case tagMajorType:
+		if err := d.enter(); err != nil {
+			return nil, err
+		}
+		defer d.leave()
 		wrapped, err := d.decodeRaw()
 		if err != nil {
 			return nil, err
@@ -421,6 +448,15 @@ func (d *Decoder) decodeVal(rv reflect.Value) error {
 	// single additional byte can contain any value 0-255
 	if lowFiveBits < 0x18 {
 		additional = []byte{lowFiveBits}
+	}
+
+	// Bound the nesting of container types
+	switch highThreeBits {
+	case arrayMajorType, mapMajorType, tagMajorType:
+		if err := d.enter(); err != nil {
+			return err
+		}
+		defer d.leave()
 	}
 
 	// Dispatch decoding by major type
